@@ -264,3 +264,140 @@ class ConsistencyJacobian(Contract):
         return [("shape", z3.And(F.ln(res, 0) == j.total, F.ln(res, 1) == j.N)),
                 ("entries", F.fa_multi([k, i, p], z3.Implies(z3.And(0 <= k, k < j.m.n, j.om(k) <= i, i < j.om(k) + j.sz[nm], 0 <= p, p < j.N),
                                                              e == z3.If(j.normalize, diff / F.el(j.nf, i), diff)), j.m.a[k], e))]
+
+
+# ---------------------------------------------------------------------------- scalar coupling: gradient (rank 1) from the coupling function
+COUPLING_G = TFun("c17_coupling_gradient", [F1], F1)
+coupling_g = z3.Function("c17_coupling_gradient", F1.sort(), F1.sort())
+schema(FFD + "#asgrad", {"_jac": COUPLING_G})
+schema(CCLS + "#jac1", {CP_ + "formulation": TObj(BF, schema_key=BF + "#idf"), CP_ + "output_couplings": NAMES,
+                        CP_ + "coupl_func": TObj(FFD, schema_key=FFD + "#asgrad"), CP_ + "norm_fact": F1, CP_ + "dv_len": TDict(TStr, TInt)})
+
+
+@register
+class ConsistencyGradient(Contract):
+    """Scalar coupling (one output coupling of size 1, the coupling function returns a gradient): entry p = (dy/dx_p - [p is the column of
+    the coupling target]) / norm (a 1 x N matrix when normalised - numpy broadcasting against the factor column -, a vector otherwise)."""
+
+    targets = (CCLS + "._jac_to_wrap",)
+    variant = "gradient"
+    prop = ("C17",)
+    self_schema = CCLS + "#jac1"
+    numpy = "precise"
+    np_c17 = True
+    frame_arrays = True
+    params = {"x_vect": F1}
+
+    def requires(self, c):
+        j = _J(c.old.self)
+        v = z3.Const("v!jg", F1.sort())
+        base = [r for r in ConsistencyJacobian.requires(self, c) if not r[0].startswith(("coupling-jacobian", "stored-sizes"))]
+        return base + [("one-scalar-output-coupling", z3.And(j.m.n == 1, j.sz[j.m.a[0]] == 1)),
+                       ("coupling-gradient-has-one-component-per-design-component", z3.ForAll([v], F1.dim(coupling_g(v)) == j.N, patterns=[coupling_g(v)]))]
+
+    def axioms(self, c):
+        j = _J(c.old.self)
+        M = F.mem_of(j.m.a, j.m.n)
+        pos0 = j.d.pos[j.m.a[0]]
+        e = z3.K(INT, pos0)
+        return F.off_axioms() + F.offm_axioms() + F.mem_axioms(j.m) + [
+            F.distinct_inj(j.a), ("lemma:off-monotone(couplings)", F.off_mono(j.m, j.sz)), ("lemma:off-monotone(all)", F.off_mono(j.a, j.sz)),
+            ("lemma:offm-monotone", F.offm_mono(j.a, j.sz, M)), ("lemma:psum-bridge", F.psum_bridge(j.a, j.sz)),
+            # OffsetLemmas (consumed-is-offset) for the one-element sub-list [coupling] of the design variables, embedded at its position
+            # (an instance of the lemma's conclusion; its premise - [coupling] is a sub-list of the design variables, embedded at the
+            # coupling's position - is the precondition couplings-are-design-variables)
+            ("lemma:consumed-is-offset", F.consumed_is_offset(j.m, j.a, j.sz, e)),
+            # ground instances of the axioms / lemmas above (at the single coupling and at its position among the design variables)
+            ("instance:off(couplings, 1)", z3.And(F.off(j.m.a, j.sz, 0) == 0, F.off(j.m.a, j.sz, 1) == F.off(j.m.a, j.sz, 0) + j.sz[j.m.a[0]])),
+            ("instance:off-monotone(all) at the coupling", z3.Implies(z3.And(F.nonneg_sizes(j.a, j.sz), 0 <= pos0, pos0 < j.a.n),
+                                                                      z3.And(0 <= F.off(j.a.a, j.sz, pos0), F.off(j.a.a, j.sz, pos0) + j.sz[j.a.a[pos0]] <= j.N)))]
+
+    def ensures(self, c):
+        j = _J(c.old.self)
+        res, x = c.result, c.old.x_vect
+        G = coupling_g(F._arr_term(x))
+        p, q = z3.Int("p!jg"), z3.Int("q!jg")
+        nm = j.m.a[0]
+        # (column p lies in the chunk of the q-th design variable: it is the column of the coupling target iff this variable is the coupling)
+        diff = z3.Select(F1.els(G), p) - _ind(j.a.a[q] == nm)
+        rank = res.obj.rank
+        e = F.at(res.obj.elems, *([z3.IntVal(0)] if rank == 2 else []), p)
+        rng = z3.And(0 <= q, q < j.a.n, F.off(j.a.a, j.sz, q) <= p, p < F.off(j.a.a, j.sz, q) + j.sz[j.a.a[q]])
+        shape = z3.And(F.ln(res, 0) == 1, F.ln(res, 1) == j.N) if rank == 2 else F.ln(res) == j.N
+        return [("shape", shape), ("matrix-iff-normalised", j.normalize == z3.BoolVal(rank == 2)),
+                ("entries", F.fa_multi([q, p], z3.Implies(rng, e == z3.If(j.normalize, diff / F.el(j.nf, 0), diff)), j.a.a[q], e))]
+
+
+# ============================================================================ lemmas tying the clauses / the formulations together (pure SMT)
+REAL = z3.RealSort()
+RARR = z3.ArraySort(INT, REAL)
+
+
+@register
+class FormulationLemmas(Contract):
+    """Specification-level lemmas (closed formulas proved by the SMT solver):
+
+    * jacobian-is-the-derivative-of-the-value: moving the design vector by h along coordinate p changes component i of the VALUE clause of
+      ConsistencyConstraint._func_to_wrap, (y_i(x) - x[c_i]) / norm_i, by exactly h times entry (i, p) of the JACOBIAN clause of
+      _jac_to_wrap, (dy_i/dx_p - [p = c_i]) / norm_i, whenever the coupling function moves by h * dy_i/dx_p (i.e. when the coupling
+      Jacobian is the derivative of the coupling function; first-order part); with and without normalisation.
+    * same-adapter-inputs: the adapter input vector of a FunctionFromDiscipline (clause `adapter-input-is-the-gather`) evaluated in IDF at
+      the design vector (x, y) laid out along the IDF design variables equals, component by component, the input vector of the same
+      discipline laid out from the physical values of its input variables - the vector the MDA feeds the discipline with when y = y*(x)
+      (abstract mda_solution): both "masks" select the same physical variables; hence (adapter = a function of the content of its input
+      vector) the MDF and the IDF objective / constraint functions have the same value there.
+    * all-consistency-constraints-vanish-iff-fixed-point: lifting of the per-component clause `vanishes-iff-consistent` over all the
+      constraints and components: every consistency constraint vanishes iff every coupling target equals the coupling computed from the
+      design vector, y = Y(x, y) (the definition of the multidisciplinary solution)."""
+
+    targets = ()
+    prop = ("C17",)
+    lemma = True
+
+    def lemmas(self):
+        out = []
+        # ---- (1) value clause vs Jacobian clause
+        y0, y1, J, h, nf = z3.Reals("y0 y1 J h nf")
+        x = z3.Const("x", RARR)
+        c_i, p = z3.Ints("c_i p")
+        x1 = z3.Store(x, p, x[p] + h)  # the design vector moved by h along coordinate p
+        ind = z3.If(p == c_i, z3.RealVal(1), z3.RealVal(0))
+        first_order = y1 - y0 == h * J
+        for normalised in (True, False):
+            v0 = (y0 - x[c_i]) / nf if normalised else y0 - x[c_i]
+            v1 = (y1 - x1[c_i]) / nf if normalised else y1 - x1[c_i]
+            jac = (J - ind) / nf if normalised else J - ind
+            out.append((f"jacobian-is-the-derivative-of-the-value[{'normalised' if normalised else 'plain'}]",
+                        z3.Implies(z3.And(first_order, nf != 0), v1 - v0 == h * jac)))
+        # ---- (2) the two layouts select the same physical variables
+        a, m = F.Seq(z3.Int("nA"), z3.Const("a", F.NAMES)), F.Seq(z3.Int("nM"), z3.Const("m", F.NAMES))
+        sz = z3.Const("sz", F.SIZES)
+        phys = z3.Function("c17_physical_value", STR, INT, REAL)  # value of component t of a variable (x for a design variable, y*(x) for a coupling)
+        z, r, w = z3.Const("z", RARR), z3.Const("r", RARR), z3.Const("w", RARR)
+        i, j, t, q = z3.Ints("i j t q")
+        z_is_physical = z3.ForAll([j, t], z3.Implies(z3.And(0 <= j, j < a.n, 0 <= t, t < sz[a.a[j]]), z[F.off(a.a, sz, j) + t] == phys(a.a[j], t)),
+                                  patterns=[z3.MultiPattern(a.a[j], phys(a.a[j], t))])
+        w_is_physical = z3.ForAll([i, t], z3.Implies(z3.And(0 <= i, i < m.n, 0 <= t, t < sz[m.a[i]]), w[F.off(m.a, sz, i) + t] == phys(m.a[i], t)),
+                                  patterns=[z3.MultiPattern(m.a[i], phys(m.a[i], t))])
+        pre = z3.And(F.gathered(r, z, m, a, sz), z_is_physical, w_is_physical, 0 <= i, i < m.n, 0 <= j, j < a.n, m.a[i] == a.a[j], 0 <= t, t < sz[m.a[i]],
+                     phys(m.a[i], t) == phys(m.a[i], t))
+        out.append(("same-adapter-inputs", z3.Implies(pre, r[F.off(m.a, sz, i) + t] == w[F.off(m.a, sz, i) + t])))
+        # hence equal values, for an adapter that is a function of the content of its input vector
+        f = z3.Function("c17_adapter_of_content", INT, RARR, REAL)
+        n = z3.Int("n")
+        u, v = z3.Const("u", RARR), z3.Const("v", RARR)
+        extensional = z3.ForAll([u, v], z3.Implies(z3.ForAll([q], z3.Implies(z3.And(0 <= q, q < n), u[q] == v[q])), f(n, u) == f(n, v)), patterns=[z3.MultiPattern(f(n, u), f(n, v))])
+        same = z3.ForAll([q], z3.Implies(z3.And(0 <= q, q < n), r[q] == w[q]))
+        out.append(("same-adapter-inputs-give-the-same-value", z3.Implies(z3.And(extensional, same), f(n, r) == f(n, w))))
+        # ---- (3) all the consistency constraints vanish iff the couplings are at the fixed point
+        val = z3.Function("c17_constraint_value", INT, INT, REAL)  # component i of the consistency constraint of discipline d
+        comp = z3.Function("c17_computed_coupling", INT, INT, REAL)  # Y(x, y): component i of the couplings computed by discipline d
+        targ = z3.Function("c17_coupling_target", INT, INT, REAL)  # y: the corresponding component of the design vector
+        dim = z3.Function("c17_coupling_dimension", INT, INT)
+        nd, d = z3.Ints("nd d")
+        rng = z3.And(0 <= d, d < nd, 0 <= i, i < dim(d))
+        per_component = z3.ForAll([d, i], z3.Implies(rng, (val(d, i) == 0) == (comp(d, i) == targ(d, i))), patterns=[val(d, i)])
+        all_vanish = z3.ForAll([d, i], z3.Implies(rng, val(d, i) == 0), patterns=[val(d, i)])
+        fixed_point = z3.ForAll([d, i], z3.Implies(rng, comp(d, i) == targ(d, i)), patterns=[val(d, i)])
+        out.append(("all-consistency-constraints-vanish-iff-fixed-point", z3.Implies(per_component, all_vanish == fixed_point)))
+        return out
